@@ -4,3 +4,7 @@ import IweModel.Props.C19
 #print axioms Iwe.C19.touches_only_notes
 #print axioms Iwe.C19.no_temp_left
 #print axioms Iwe.C19.exists_truncated
+#print axioms Iwe.C19.failed_write_keeps_note
+#print axioms Iwe.C19.failed_write_removes_temp
+#print axioms Iwe.C19.failed_store_old_or_new
+#print axioms Iwe.C19.fallback_in_place_truncates
